@@ -169,6 +169,8 @@ struct M17Demodulator
     bool dcd_ = false;
     bool need_clock_reset_ = false;
     bool need_clock_update_ = false;
+    bool eot_flag = false;          ///< EOT sync seen while waiting for the next stream sync word.
+    int16_t initializing = 1920;    ///< samples still to pump through on startup.
 
     bool passall_ = false;
     size_t viterbi_cost = 0;
@@ -419,8 +421,6 @@ void M17Demodulator<FloatType>::do_lsf_sync()
 template <typename FloatType>
 void M17Demodulator<FloatType>::do_stream_sync()
 {
-    static bool eot_flag = false;
-    
     sync_count += 1;
     if (sync_count < MIN_SYNC_COUNT) {
         return;
@@ -705,8 +705,6 @@ void M17Demodulator<FloatType>::do_frame(FloatType filtered_sample)
 template <typename FloatType>
 void M17Demodulator<FloatType>::operator()(const FloatType input)
 {
-    static int16_t initializing = 1920;
-
     count_++;
 
     dcd(input);
